@@ -651,8 +651,12 @@ def combos(tier, seed, only=None):
         allc = [c for c in allc if only(c)]
     if tier == "thorough" or len(allc) <= 9:
         return allc
-    third = [c for i, c in enumerate(allc) if (i + seed) % 3 == 0]
-    must = [("ts", "lsh"), ("lin-ts", "radius"), ("ucb1", "tree"), ("softmax", "clusters"), ("lin-ucb", None), ("pop", None)]
+    # a third of the combinations, rotated so that every neighbourhood policy meets different learning policies and every
+    # learning policy meets several neighbourhood policies (a plain stride would pick the same three policies each time)
+    third = [(lp, np_) for j, np_ in enumerate(gen.NPS) for i, lp in enumerate(gen.LPS)
+             if (lp, np_) in allc and (i + j + seed) % 3 == 0]
+    must = [("ts", "lsh"), ("lin-ts", "radius"), ("ucb1", "tree"), ("softmax", "clusters"), ("lin-ucb", None), ("pop", None),
+            ("lin-ts", None), ("ts", None)]
     return third + [c for c in must if c in allc and c not in third]
 
 
@@ -663,6 +667,8 @@ def life_jobs(tier, seed, ops, checks=None, rejects=False, depth=None, over=None
         bkw = dict(lp=lp, np_=np_, labelmap=["int", "str", "float"][(i + seed) % 3],
                    container=["ndarray", "list", "pandas", "int"][(i // 3 + seed) % 4],
                    n_jobs=[1, 2, 3][(i + seed) % 3] if np_ else 1, backend="threading" if np_ else None)
+        if lp == "ts" and np_ != "tree" and (i + seed) % 2 == 0:
+            bkw["bin_name"] = "thr"      # Thompson with an arm-dependent binarizer (under TreeBandit: known finding F9, decided by C14)
         bkw.update(extra or {})
         if np_ == "tree" and lp == "ts":
             bkw["n_jobs"] = 1        # leaf policies share the main generator between threads (known finding F7, decided by C05)
@@ -834,7 +840,8 @@ def c18(report):
     report.nontrivial_rule = ("query edges of Life.tla graphs replayed under every container type and compared edge by edge with "
                               "the ndarray replay; byte snapshots of every caller object around every call")
     def variants(lp, np_, i):
-        return [dict(container=c) for c in ("ndarray", "list", "pandas", "fortran", "view", "int")]
+        extra = dict(bin_name="thr") if lp == "ts" and np_ != "tree" and i % 2 == 0 else {}     # the binarizer reads the caller's arrays
+        return [dict(container=c, **extra) for c in ("ndarray", "list", "pandas", "fortran", "view", "int")]
     ops = FULL_OPS | {"warm_start"}
     jobs = cross_jobs(report.tier, report.seed, variants, "exact", ops, caller_check=True, tag="-c18")
     # single-feature data: a pandas Series as contexts (column orientation)
@@ -961,7 +968,7 @@ def c20(report):
                               "arms, permuted rows, shifted / scaled rewards) from the same seed and compared edge by edge")
     ops = FULL_OPS | {"warm_start"}
     def relabel(lp, np_, i):
-        return [dict(labelmap=m) for m in ("int", "str", "float")]
+        return [dict(labelmap=m) for m in ("int", "str", "float", "int0")]
     jobs = cross_jobs(report.tier, report.seed, relabel, "exact", ops, tag="-relabel")
     def perm(lp, np_, i):
         extra = dict(bin_name="thr") if lp == "ts" else {}       # arm-dependent binarizer: rows and arms must stay aligned
